@@ -413,7 +413,7 @@ impl Model {
                 if !fam_is_mut(*fam) && (*clone_at as usize) <= pat.len() {
                     st.hit(Ev::IterClone);
                 }
-                if *fin % crate::ops::N_FIN != 0 && l.len() > pat.len() {
+                if (*fin >= crate::ops::FIN_EXT || *fin % crate::ops::N_FIN != 0) && l.len() > pat.len() {
                     st.hit(Ev::IterFinish);
                 }
                 return Out::Iter(expected_iter(l, *fam, pat, *clone_at, *write, i, *fin));
